@@ -160,6 +160,9 @@ func (c01Driver) Generate(t *tape.Tape, tier string) core.Case {
 			b.Kind, b.A, b.B = "dupblock", bt.Intn(1<<16), bt.Intn(64)
 		case 5:
 			b.Kind, b.Raw = "raw", c18Raws[bt.Intn(len(c18Raws))]
+			if bt.Chance(1, 2) {
+				b.Raw = genSoup(bt) // misplaced / contradictory statements, see C05
+			}
 		case 6:
 			b.Kind, b.Raw = "toplevel", []string{"container top { leaf x { type string; } }\n", "foo bar;\n", "typedef tt { type string; }\n", "leaf;\n", "", "module;", "module m { } }", "submodule s { belongs-to; }"}[bt.Intn(8)]
 		}
